@@ -6,10 +6,11 @@ import "verif/internal/run"
 // accepted (an input-region matcher on the inserted construct only): any other
 // accepted-invalid construct, and every other failure kind, stays a VIOLATION.
 var acceptedConstructs = map[string][]string{
-	"c04.accepts.setterArity":  {"({set a() {}});"},
-	"c04.accepts.missingComma": {"({a:1 b:2});"},
-	"c04.accepts.regexpFlags":  {"x = /a/x;", "x = /a/gg;"},
-	"c04.accepts.regexpGroup":  {"x = /(?<n>a)/;"},
+	"c04.accepts.setterArity":       {"({set a() {}});"},
+	"c04.accepts.missingComma":      {"({a:1 b:2});"},
+	"c04.accepts.argsTrailingComma": {"f(a,);", "new f(a,);"},
+	"c04.accepts.regexpFlags":       {"x = /a/x;", "x = /a/gg;"},
+	"c04.accepts.regexpGroup":       {"x = /(?<n>a)/;"},
 }
 
 func registerMatchers() {
